@@ -76,24 +76,16 @@ func hasKind(b Blk, kinds ...string) bool {
 
 func isSpan(k string) bool { return k == "em" || k == "st" || k == "del" || k == "link" }
 
-// a formatting span (emphasis, strong, strike-through, link) that contains anything but plain text
+// a formatting span (emphasis, strong, strike-through, link) in a top-level paragraph that has, at any depth, a
+// flag-bearing span, a code span or a line break inside. The converter replaces such a span by its flattened text
+// under the outer flag only. A link inside a span (or plain text only) loses nothing and is not in the class.
 func shapeNestedInline(b Blk) bool {
 	found := false
 	eachInl(b, "", func(ctx string, xs []Inl) {
 		if ctx != "p" {
 			return
 		}
-		if anyInl(xs, func(x Inl) bool {
-			if !isSpan(x.K) {
-				return false
-			}
-			for _, c := range x.C {
-				if c.K != "t" {
-					return true
-				}
-			}
-			return false
-		}) {
+		if anyInl(xs, func(x Inl) bool { return isSpan(x.K) && formatted(x.C) }) {
 			found = true
 		}
 	})
@@ -147,6 +139,33 @@ func shapeFlattenBlocks(b Blk) bool {
 			if !onePara(it.B) {
 				return true
 			}
+		}
+	}
+	return false
+}
+
+// a heading inside a block quote or list item
+func containsNestedHeading(b Blk) bool {
+	var in func(bs []Blk) bool
+	in = func(bs []Blk) bool {
+		for _, c := range bs {
+			if c.K == "h" || in(c.B) {
+				return true
+			}
+			for _, it := range c.Items {
+				if in(it.B) {
+					return true
+				}
+			}
+		}
+		return false
+	}
+	if in(b.B) {
+		return true
+	}
+	for _, it := range b.Items {
+		if in(it.B) {
+			return true
 		}
 	}
 	return false
@@ -276,6 +295,25 @@ func mathPanicTrigger(c Case, f kit.Failure) bool {
 	return bytes.Count(src, []byte("$$")) >= 2
 }
 
+// flatten-blocks: M1, M2, M5, M6 on a top-level list or quote with an item/quote that is not exactly one paragraph;
+// M3 only if, in addition, a heading sits inside that container (it becomes part of the flattened paragraph).
+func kfBlocks(desc string) kit.Finding[Case] {
+	f := kf("KF-C19-flatten-blocks", desc, "M1", "M2", "M5", "M6")
+	base := f.Trigger
+	f.Trigger = func(c Case, fl kit.Failure) bool {
+		if clauseIn(fl, "M3") {
+			for _, b := range topsOf(c, fl) {
+				if shapeFlattenBlocks(b) && containsNestedHeading(b) {
+					return true
+				}
+			}
+			return false
+		}
+		return base(c, fl)
+	}
+	return f
+}
+
 var findings = []kit.Finding[Case]{
 	{ID: "KF-C19-math-panic", Clause: "C19.M0", Trigger: mathPanicTrigger,
 		Desc: "with math on, a display formula that starts on the line right after the closing $$ of another one (or on the line that leaves a quote/list item holding an unclosed one) makes conversion panic in the math block parser (nil *mathjax.mathBlockData)"},
@@ -285,7 +323,7 @@ var findings = []kit.Finding[Case]{
 	kf("KF-C19-nested-inline", "a formatting span containing another span, a code span or a line break is flattened: inner formatting is lost, words around the break are glued", "M2", "M4"),
 	kf("KF-C19-flatten-inline", "inline formatting and line breaks inside headings, list items and block quotes are dropped (flags lost, words glued)", "M2", "M3", "M4"),
 	kf("KF-C19-cell-inline", "table cells keep at most one whole-cell bold/italic flag: partial, combined, strike and code formatting in cells is lost or spread over the cell", "M4"),
-	kf("KF-C19-flatten-blocks", "a list item or block quote with more than one paragraph is flattened into one paragraph: nested items/paragraphs are glued to the parent, code blocks/tables/formulas inside lose their text", "M1", "M2", "M5", "M6"),
+	kfBlocks("a list item or block quote with more than one paragraph is flattened into one paragraph: nested items/paragraphs are glued to the parent, code blocks/tables/formulas inside lose their text, a heading inside loses its style"),
 	kf("KF-C19-tables-off", "with GFM on and EnableTables off the whole text of a table is dropped", "M1"),
 	kf("KF-C19-header-only-align", "a table without body rows loses its column alignment", "M6"),
 }
